@@ -150,7 +150,32 @@ func Ite(c, a, b Term) Term {
 	return app("ite", a.Sort, c, a, b)
 }
 
-func Add(a, b Term) Term { return app("+", SInt, a, b) }
+func Add(a, b Term) Term {
+	// off + (J - off) == J (change of variable of quantified slice indices, see quantParts)
+	if strings.HasPrefix(b.S, "(- ") && strings.HasSuffix(b.S, " "+a.S+")") {
+		inner := b.S[3 : len(b.S)-len(a.S)-2]
+		if balanced(inner) && !strings.Contains(inner, " ") {
+			return Term{inner, SInt}
+		}
+	}
+	return app("+", SInt, a, b)
+}
+
+func balanced(s string) bool {
+	d := 0
+	for _, c := range s {
+		switch c {
+		case '(':
+			d++
+		case ')':
+			d--
+			if d < 0 {
+				return false
+			}
+		}
+	}
+	return d == 0
+}
 func Sub(a, b Term) Term { return app("-", SInt, a, b) }
 func Mul(a, b Term) Term { return app("*", SInt, a, b) }
 func Lt(a, b Term) Term  { return app("<", SBool, a, b) }
